@@ -87,8 +87,8 @@ def h_written_hdf5_is_valid(nr, nc, typ):
             raise Abort()
     store = new_store()
     t.to_hdf5(store, 'verif', creation_date=DATE)
-    via = pick(['_validate_hdf5', 'run'], 'entry')
-    if via == 'run':
+    via = pick(['_validate_hdf5', 'run', 'click-callback'], 'entry')
+    if via in ('run', 'click-callback'):
         import contextlib
         import sx.env as env
         TV = env.module('biom.cli.table_validator')
@@ -98,9 +98,27 @@ def h_written_hdf5_is_valid(nr, nc, typ):
             yield store
         TV.biom_open = fake_open
         TV.is_hdf5_file = lambda fp: True
-        r, e = call(lambda: TV._validate_table('table.biom', pick([None, '2.1', '2.1.0'], 'format-version')))
-        if e is None:
-            r = {'valid_table': r[0], 'report_lines': r[1]}
+        fv = pick([None, '2.1', '2.1.0'], 'format-version')
+        if via == 'run':
+            r, e = call(lambda: TV._validate_table('table.biom', fv))
+            if e is None:
+                r = {'valid_table': r[0], 'report_lines': r[1]}
+        else:
+            # the command itself: prints the report and a verdict line, exit status 0 for valid / 1 for not valid
+            said = []
+            TV.click = type('click', (), {'echo': staticmethod(lambda msg='', **k: said.append(str(msg)))})
+            code, e = None, None
+            try:
+                TV.validate_table.callback('table.biom', fv)
+            except SystemExit as ex:
+                code = ex.code
+            except Exception as ex:     # noqa
+                e = ex
+            verdict = said[-1] if said else ''
+            r = {'valid_table': code == 0 and verdict == 'The input file is a valid BIOM-formatted file.',
+                 'report_lines': [l for m_ in said[:-1] for l in m_.split('\n') if l] + ([] if code in (0, 1) else ['exit status %r' % (code,)])}
+            if code == 0 and 'not a valid' in verdict or code == 1 and 'is a valid' in verdict:
+                fail('hdf5:verdict-and-exit-status-disagree', f"{code} / {verdict}", type=typ)
     else:
         r, e = call(lambda: _validator()._validate_hdf5(table=store, format_version='2.1'))
     sig = dict(type=typ, entry=via, origin=origin)
